@@ -349,10 +349,50 @@ def run(ctx):
             ctx.check(rv == want, 'C07.6', 'enum:fallback:%s' % want, f_lue.loc(), 'no entry -> %s' % want, 'no entry and bitfield=%s -> %s' % (bf[-1], rv))
     ctx.floor('C07.6', nfb, 2, 'fallback paths of look_up_enum')
     f_ge = repo.func('protocol.get_enum')
-    for p in paths_of(repo, f_ge):
-        if p.outcome[0] == 'return' and norm(p.outcome[1]) != 'None':
-            ctx.check(norm(p.outcome[1]).replace(' ', '') in ("interfaces.get(([interface_name]+enum_path.split('.'))[-2]).enums.get(([interface_name]+enum_path.split('.'))[-1])",), 'C07.6', 'get_enum:resolution', f_ge.loc(),
-                      'an enum path is `enum` (own interface) or `interface.enum`', 'get_enum returns %s' % norm(p.outcome[1])[:160])
+    # an enum path is `enum` (the message's own interface) or `[...].interface.enum`: the two lookups are decided by folding the
+    # path's (pure string) terms for the three shapes of a path - no dot, one dot, several dots
+    from ..peval import fold, fold_text, Unfoldable
+    SHAPES = {'e': ('OWN', 'e'), 'i.e': ('i', 'e'), 'x.i.e': ('i', 'e')}
+    gep = paths_of(repo, f_ge)
+    nres = 0
+    for sample, (want_i, want_e) in sorted(SHAPES.items()):
+        env = {'interface_name': 'OWN', 'enum_path': sample}
+        hits = []
+        for p in gep:
+            if p.outcome[0] != 'return' or norm(p.outcome[1]) == 'None':
+                continue
+            feasible = True
+            for a_, v_ in p.decisions:
+                try:
+                    if bool(fold_text(a_.text, env)) != v_:
+                        feasible = False
+                except Unfoldable:
+                    pass        # about something else (whether the interface is known)
+            if feasible:
+                hits.append(p)
+        for p in hits:
+            rv = p.outcome[1]
+            m_ = isinstance(rv, ast.Call) and isinstance(rv.func, ast.Attribute) and rv.func.attr == 'get' and len(rv.args) >= 1 \
+                and isinstance(rv.func.value, ast.Attribute) and rv.func.value.attr == 'enums'
+            got = None
+            if m_:
+                iface = rv.func.value.value
+                if isinstance(iface, ast.Call) and norm(iface.func) in ('interfaces.get',) and iface.args:
+                    iface_key = iface.args[0]
+                elif isinstance(iface, ast.Subscript) and norm(iface.value) == 'interfaces':
+                    iface_key = iface.slice
+                else:
+                    iface_key = None
+                if iface_key is not None:
+                    try:
+                        got = (fold(iface_key, env), fold(rv.args[0], env))
+                    except Unfoldable as ex_:
+                        raise AnalysisError('C07.6: cannot fold the enum lookup of get_enum for path %r: %s' % (sample, ex_))
+            nres += 1
+            ctx.check(got == (want_i, want_e), 'C07.6', 'get_enum:resolution:%s' % {'e': 'own-interface', 'i.e': 'qualified', 'x.i.e': 'long-qualified'}[sample], f_ge.loc(),
+                      'enum path %r resolves to enum %r of interface %r' % (sample, want_e, want_i if want_i != 'OWN' else 'the message\'s own interface'),
+                      'enum path %r resolves to %s (get_enum returns %s)' % (sample, got, norm(rv)[:140]))
+    ctx.floor('C07.6', nres, 3, 'resolved shapes of enum paths in get_enum')
 
     # ---- C07.7 unknown interface is undecorated ----------------------------------------------------------------------
     for p in gp:
@@ -424,8 +464,8 @@ def run(ctx):
             continue
         has = [v for a, v in p.decisions if a.text == "hasattr(self, 'labels')"]
         from ..sim import deep_norm
-        t = deep_norm(p.outcome[1])
-        ctx.check(bool(has) and (re.search(r'for (\w+) in self\.labels\]', t) is not None and '.join(' in t) == has[0] and 'str(self.value)' in t, 'C07.9', 'display:enum-labels:%s' % (has[0] if has else '?'), f_iv.loc(),
+        t = deep_norm(p.outcome[1], concat=True)
+        ctx.check(bool(has) and (re.search(r'for (\w+) in self\.labels[\]\)]', t) is not None and '.join(' in t) == has[0] and 'str(self.value)' in t, 'C07.9', 'display:enum-labels:%s' % (has[0] if has else '?'), f_iv.loc(),
                   'an integer shows its value and, when it has labels, all of them', 'integer display is %s' % t[:120])
     f_nv = repo.func('Arg.Null.value_to_str')
     for p in paths_of(repo, f_nv):
